@@ -6,13 +6,14 @@ set -u
 rm -rf $wt; git -C /repo worktree add --detach -q $wt HEAD || exit 2
 cd $wt
 /venv/bin/python setup.py build_ext --inplace >/dev/null 2>&1; rm -rf build
-echo "== demo on unchanged tree"; /venv/bin/python $out/demo.py 2>&1 | tail -3; echo "rc=$?"
+cp $out/demo.py $wt/_seed_demo.py   # run from inside the checkout so that `import rebound` resolves to it
+echo "== demo on unchanged tree"; /venv/bin/python $wt/_seed_demo.py 2>&1 | tail -3; echo "rc=$?"
 r0=${PIPESTATUS[0]}
 git apply $out/patch.diff || { echo "PATCH DOES NOT APPLY"; cd /; git -C /repo worktree remove --force $wt; exit 2; }
 /venv/bin/python setup.py build_ext --inplace >/tmp/vseed-$id-build.log 2>&1 || { echo "BUILD FAILED"; tail -5 /tmp/vseed-$id-build.log; }
 rm -rf build
-echo "== demo on changed tree"; /venv/bin/python $out/demo.py 2>&1 | tail -3
-echo "== suite on changed tree"; timeout 1500 /venv/bin/python -m pytest -q -p no:cacheprovider --timeout=900 --continue-on-collection-errors 2>&1 | tail -1
+echo "== demo on changed tree"; /venv/bin/python $wt/_seed_demo.py 2>&1 | tail -3; echo "rc_changed=${PIPESTATUS[0]}"
+[ -n "${SKIP_SUITE:-}" ] || { echo "== suite on changed tree"; timeout 1500 /venv/bin/python -m pytest -q -p no:cacheprovider --timeout=900 --continue-on-collection-errors 2>&1 | tail -1; }
 cd /; git -C /repo worktree remove --force $wt; rm -rf $wt
 mkdir -p /verif/seeded/$id; cp $out/patch.diff $out/demo.py $out/meta.json /verif/seeded/$id/ 2>/dev/null
 echo "== copied to /verif/seeded/$id"
